@@ -77,6 +77,20 @@ func (b *vBlocks) WaitForBlockHeight(h uint64) error {
 	b.t.mu.Unlock()
 	return nil
 }
+// CurrentBlock: the chain may have moved on by a few blocks since the last
+// height the machine waited for (e.g. while a state was initiating)
+func (b *vBlocks) CurrentBlock() (uint64, error) {
+	b.t.mu.Lock()
+	defer b.t.mu.Unlock()
+	last := uint64(0)
+	if n := len(b.t.waited); n > 0 {
+		last = b.t.waited[n-1]
+	}
+	extra := uint64(vU8())
+	vAssume(extra <= 3)
+	return last + extra, nil
+}
+
 func (b *vBlocks) BlockHeightWaiter(h uint64) (<-chan uint64, error) {
 	b.t.mu.Lock()
 	b.t.waiters = append(b.t.waiters, h)
